@@ -94,9 +94,9 @@ def one(rec, t, ti, name, obj, j, rng):
     case = {"tree": ti, "class": name, "value": obj.to_json()}
     rec.case((ti, name, repr(obj), "constructed"), nontrivial=bool(obj.fields))
     handles = []
-    form = j % 3
+    form = j % 4
     try:
-        inst = br.build(obj, array_form=form, handles=handles if form == 0 else None)
+        inst = br.build(obj, array_form=form, handles=handles if form in (0, 3) else None)
     except Exception as e:
         rec.count("constructor-raised")
         return
@@ -107,7 +107,7 @@ def one(rec, t, ti, name, obj, j, rng):
             v = getattr(inst, pname)
             if not isinstance(v, tuple):
                 case["xml"] = t.files
-                rec.violation("array-not-tuple", "tree %d %s.%s is %s, not tuple (built from %s)" % (ti, name, pname, type(v).__name__, ["list", "tuple", "generator"][form]), case)
+                rec.violation("array-not-tuple", "tree %d %s.%s is %s, not tuple (built from %s)" % (ti, name, pname, type(v).__name__, ["list", "tuple", "generator", "list-or-bytearray"][form]), case)
     b1 = serialize(t, C, inst)
     b2 = serialize(t, C, inst)
     rec.count("double-serializations")
@@ -171,4 +171,4 @@ def one(rec, t, ti, name, obj, j, rng):
             case["xml"] = t.files
             rec.violation("serialization-not-repeatable", "tree %d %s (deserialized): %r vs %r" % (ti, name, d1, d2), case)
     if rec.evals % 300 == 1:
-        rec.sample({"tree": ti, "class": name, "value": obj.to_json(), "built_from": ["list", "tuple", "generator"][form]})
+        rec.sample({"tree": ti, "class": name, "value": obj.to_json(), "built_from": ["list", "tuple", "generator", "list-or-bytearray"][form]})
